@@ -105,6 +105,9 @@ def getMS : M R (MS R) := fun _ ms => (.ok ms, ms)
 def noteAlloc (n : String) (r : R) : M R Unit := fun _ ms => (.ok (), { ms with allocd := ms.allocd ++ [(n, r)] })
 def noteFailed (n : String) (r : R) : M R Unit := fun _ ms => (.ok (), { ms with failed := ms.failed ++ [(n, r)] })
 
+/-- the distinct first components, in order of first occurrence (Go: keys of `rollbackMap`) -/
+def keysOf {β} (l : List (String × β)) : List String := (l.map (·.1)).eraseDups
+
 /-- run `m`, turning failure into `false` (Go: error logged / recorded, execution continues) -/
 def attempt (m : M R Unit) : M R Bool := fun flt ms =>
   match m flt ms with
